@@ -148,64 +148,97 @@ def rule_CF2(ctx, rep):
         rep.bad('CF2', pf, pf.qualname, 'no check `threshold == 0 or len(parties) < field.order` for the field of secure integers / fixed-point numbers', pf.node)
     sf = model.func('sectypes::_SecFld')
     pm = parents(sf.node)
-    ifs = [s for s in sf.node.body if isinstance(s, ast.If) and 'subfield' in norm(s)]
-    if not ifs:
-        raise AnalysisError('CF2: lifting decision not found in _SecFld')
-    dec = ifs[0]
-    tnames = {norm(s.targets[0]): norm(s.value) for s in sf.node.body if isinstance(s, ast.Assign)}
-    tv = [k for k, v in tnames.items() if v == 'runtime.threshold']
-    mv = [k for k, v in tnames.items() if v == 'len(runtime.parties)']
-    qv = [k for k, v in tnames.items() if v == 'field.order']
-    if not (tv and mv and qv):
-        raise AnalysisError('CF2: t, m, q not defined as runtime.threshold, len(runtime.parties), field.order in _SecFld')
-    t, m, q = tv[0], mv[0], qv[0]
-    parts = sorted(norm(v) for v in dec.test.values) if isinstance(dec.test, ast.BoolOp) and isinstance(dec.test.op, ast.Or) else []
-    nolift_ok = False
-    if len(parts) == 2 and f'{t} == 0' in parts:
-        other = [v for v in dec.test.values if norm(v) != f'{t} == 0'][0]
-        if isinstance(other, ast.Compare) and len(other.ops) == 1:
-            l, r, op = to_lin(other.left, opaque=False), to_lin(other.comparators[0], opaque=False), other.ops[0]
-            if l is not None and r is not None:
-                if isinstance(op, (ast.Gt, ast.GtE)):
-                    l, r = r, l
-                    op = ast.Lt() if isinstance(op, ast.Gt) else ast.LtE()
-                if isinstance(op, (ast.Lt, ast.LtE)):
-                    gap = r - l - (1 if isinstance(op, ast.Lt) else 0)      # condition <=> gap >= 0
-                    d = (Lin.sym(q) - Lin.sym(m) - 1) - gap               # need q - m - 1 >= gap-part: d constant >= 0
-                    nolift_ok = d.is_const() and d.c >= 0
+    from . import cond, routes, sem
+    import itertools
+    # the two ways the field of the type is chosen: the requested field itself / GF(<irreducible>) (lifted)
+    fa = [s_ for s_ in iter_nodes(sf.node) if isinstance(s_, ast.Assign) and norm(s_.targets[0]).endswith('.field')]
+    direct = [s_ for s_ in fa if norm(s_.value) == sf.params[0]]
+    lifted = [s_ for s_ in fa if isinstance(s_.value, ast.Call) and attr_tail(s_.value.func) == 'GF']
+    if len(direct) != 1 or len(lifted) != 1:
+        raise AnalysisError('CF2: lifting decision not found in _SecFld (one direct and one lifted assignment of the field expected)')
+    dec = direct[0]
+    cxd = cond.context(sf, direct[0], pm)
+    cxl = cond.context(sf, lifted[0], pm)
+
+    def classify(a):
+        """'T0': the atom says t == 0; 'Q+': it implies q > m; 'Q-': its negation implies q > m (it says q <= m)"""
+        try:
+            e = ast.parse(a, mode='eval').body
+        except SyntaxError:
+            return None
+        if not (isinstance(e, ast.Compare) and len(e.ops) == 1):
+            return None
+        l, r, op = e.left, e.comparators[0], e.ops[0]
+        sub = {'field.order': 'Q'}
+        def lin(x):
+            t_ = norm(x)
+            for k_, v_ in sub.items():
+                t_ = t_.replace(k_, v_)
+            try:
+                return to_lin(ast.parse(t_, mode='eval').body, {}, opaque=False)
+            except SyntaxError:
+                return None
+        ll, rr = lin(l), lin(r)
+        if ll is None or rr is None:
+            return None
+        if isinstance(op, ast.Eq) and (ll - rr) in (Lin.sym('T'), Lin.sym('T') * -1):
+            return 'T0'
+        if isinstance(op, (ast.Gt, ast.GtE)):
+            ll, rr = rr, ll
+            op = ast.Lt() if isinstance(op, ast.Gt) else ast.LtE()
+        if isinstance(op, (ast.Lt, ast.LtE)):
+            gap = rr - ll - (1 if isinstance(op, ast.Lt) else 0)          # atom <=> gap >= 0
+            d = (Lin.sym('Q') - Lin.sym('M') - 1) - gap                    # gap >= 0 implies q - m - 1 >= 0 if d is a constant >= 0
+            if d.is_const() and d.c >= 0:
+                return 'Q+'
+            # negation: not(atom) <=> -gap - 1 >= 0
+            d2 = (Lin.sym('Q') - Lin.sym('M') - 1) - (gap * -1 - 1)
+            if d2.is_const() and d2.c >= 0:
+                return 'Q-'
+        return None
+    ats = sorted(cond.atoms_of(cxd))
+    kinds = {a: classify(a) for a in ats}
+    nolift_ok = bool(ats) and any(k in ('Q+', 'Q-') for k in kinds.values())
     if nolift_ok:
-        rep.ok('CF2', sf, dec.test, f'the field is used directly only if t == 0 or it has more than m elements')
+        for bits in itertools.product([True, False], repeat=len(ats)):
+            v = dict(zip(ats, bits))
+            if cond.evalf(cxd, v) and not any((kinds[a] == 'T0' and v[a]) or (kinds[a] == 'Q+' and v[a]) or (kinds[a] == 'Q-' and not v[a]) for a in ats):
+                nolift_ok = False
+    if nolift_ok and cond.equivalent(cxl, cond.neg(cxd)):
+        rep.ok('CF2', sf, dec, 'the field is used directly only if t == 0 or it has more than m elements; otherwise it is lifted')
     else:
-        rep.bad('CF2', sf, dec.test, f'the condition for using the field without lifting is not `{t} == 0 or {m} < {q}`: a field with at most m elements is used for Shamir sharing '
+        rep.bad('CF2', sf, dec, 'the condition for using the field without lifting is not `t == 0 or m < q`: a field with at most m elements is used for Shamir sharing '
                 '(two parties get the same evaluation point)')
-    lift = dec.orelse
-    es = [s for s in lift if isinstance(s, ast.Assign) and isinstance(s.value, ast.Call) and any(attr_tail(c.func) == 'log' for c in ast.walk(s.value) if isinstance(c, ast.Call))]
+    mq = {'m': None, 'q': None}
+    lift = [s_ for s_ in iter_nodes(sf.node) if isinstance(s_, ast.stmt) and not isinstance(s_, (ast.If, ast.FunctionDef)) and cond.equivalent(cond.context(sf, s_, pm), cxl)]
+    es = [s_ for s_ in lift if isinstance(s_, ast.Assign) and isinstance(s_.value, ast.Call) and any(attr_tail(c.func) == 'log' for c in ast.walk(s_.value) if isinstance(c, ast.Call))]
     goode = False
     if es:
         e = es[0]
         v = e.value
         logs = [c for c in ast.walk(v) if isinstance(c, ast.Call) and attr_tail(c.func) == 'log']
         ceil = isinstance(v, ast.Call) and attr_tail(v.func) == 'ceil' and v.args and v.args[0] is logs[0]
-        if ceil and len(logs[0].args) == 2 and norm(logs[0].args[1]) == q:
-            arg = to_lin(logs[0].args[0], opaque=False)
-            if arg is not None and (arg - Lin.sym(m) - 1).nonneg():
+        base = norm(routes.xp(sf, logs[0].args[1], e, pm)) if len(logs[0].args) == 2 else None
+        if ceil and base == f'{sf.params[0]}.order':
+            arg = to_lin(sem.symx(routes.xp(sf, logs[0].args[0], e, pm)), {}, opaque=False)
+            if arg is not None and (arg - Lin.sym('M') - 1).nonneg():
                 goode = True
         if goode:
-            rep.ok('CF2', sf, e, f'extension degree e = ceil(log_{q}(m+1)) gives {q}**e >= m+1 > m')
+            rep.ok('CF2', sf, e, 'extension degree e = ceil(log_q(m+1)) gives q**e >= m+1 > m')
         else:
-            rep.bad('CF2', sf, e, f'extension degree {norm(v)} does not guarantee {q}**e > {m}: for m a power of q the lifted field has only m elements '
+            rep.bad('CF2', sf, e, f'extension degree {norm(v)} does not guarantee q**e > m: for m a power of q the lifted field has only m elements '
                     '(parties m-1 and m share an evaluation point, recombination divides by zero)')
         ev = norm(e.targets[0])
-        irr = [s for s in lift if isinstance(s, ast.Assign) and isinstance(s.value, ast.Call) and attr_tail(s.value.func) == 'find_irreducible']
-        gf = [s for s in lift if isinstance(s, ast.Assign) and norm(s.targets[0]).endswith('.field') and isinstance(s.value, ast.Call) and attr_tail(s.value.func) == 'GF']
-        if irr and gf and norm(irr[0].value.args[1]) == ev and 'characteristic' in norm(irr[0].value.args[0]) and norm(gf[0].value.args[0]) == norm(irr[0].targets[0]):
+        irr = [s_ for s_ in lift if isinstance(s_, ast.Assign) and isinstance(s_.value, ast.Call) and attr_tail(s_.value.func) == 'find_irreducible']
+        gf = lifted
+        if irr and norm(irr[0].value.args[1]) == ev and 'characteristic' in norm(irr[0].value.args[0]) and norm(gf[0].value.args[0]) == norm(irr[0].targets[0]):
             rep.ok('CF2', sf, gf[0], 'lifted field = GF(irreducible polynomial of degree e over the same characteristic)')
         else:
             rep.bad('CF2', sf, sf.qualname, 'the lifted field is not GF(find_irreducible(characteristic, e))', sf.node)
     else:
         rep.bad('CF2', sf, dec, 'lifting branch does not compute an extension degree from log(m+1, q)')
-    sub = [s for s in lift if isinstance(s, ast.Assign) and norm(s.targets[0]).endswith('.subfield') and norm(s.value) == 'field']
-    conv = [s for s in lift if isinstance(s, ast.Assign) and norm(s.targets[0]).endswith('._output_conversion')]
+    sub = [s_ for s_ in lift if isinstance(s_, ast.Assign) and norm(s_.targets[0]).endswith('.subfield') and norm(s_.value) == sf.params[0]]
+    conv = [s_ for s_ in lift if isinstance(s_, ast.Assign) and norm(s_.targets[0]).endswith('._output_conversion')]
     if sub and conv:
         rep.ok('CF2', sf, conv[0], 'lifted types remember the requested field and convert outputs back to it')
     else:
@@ -481,18 +514,36 @@ def rule_G1(ctx, rep):
             rep.bad('G1', fn, fn.qualname, 'the local exponent is not (Lagrange coefficient) * (own share)', fn.node)
         from . import cond, routes
         reds = []
+        # the exponent handed to group.repeat (directly or through map)
+        exps = set()
+        for r in iter_nodes(fn.node):
+            if isinstance(r, ast.Call) and (attr_tail(r.func) == 'repeat' or (isinstance(r.func, ast.Name) and r.func.id == 'map' and r.args and attr_tail(r.args[0]) == 'repeat')):
+                exps |= {n_.id for a_ in r.args[1:] for n_ in ast.walk(a_) if isinstance(n_, ast.Name)}
+
+        def root(t):
+            while isinstance(t, ast.Subscript):
+                t = t.value
+            return t.id if isinstance(t, ast.Name) else None
         for x in iter_nodes(fn.node):
-            mod = None
+            mod = tgt = None
             if isinstance(x, ast.AugAssign) and isinstance(x.op, ast.Mod):
-                mod = x.value
-            elif isinstance(x, ast.Assign) and isinstance(x.value, ast.BinOp) and isinstance(x.value.op, ast.Mod) and norm(x.value.left) == norm(x.targets[0]):
-                mod = x.value.right
-            if mod is not None and norm(routes.xp(fn, mod, x, pm)).endswith('.characteristic'):
-                cx = cond.context(fn, x, pm)
+                mod, tgt, at = x.value, root(x.target), x
+            elif isinstance(x, ast.BinOp) and isinstance(x.op, ast.Mod):
+                st = astq.enclosing_stmt(x, pm)
+                if isinstance(st, ast.Assign) and len(st.targets) == 1:
+                    # the reduced value replaces the exponent: its operand is the exponent itself or an element enumerated from it
+                    src = {n_.id for n_ in ast.walk(x.left) if isinstance(n_, ast.Name)}
+                    for b in routes._context(fn, x, pm)[0]:
+                        if set(b.names()) & src and b.src is not None:
+                            src |= {n_.id for n_ in ast.walk(b.src) if isinstance(n_, ast.Name)}
+                    if root(st.targets[0]) in src:
+                        mod, tgt, at = x.right, root(st.targets[0]), x
+            if mod is not None and tgt in exps and norm(routes.xp(fn, mod, astq.enclosing_stmt(at, pm), pm)).endswith('.characteristic'):
+                cx = cond.context(fn, at, pm)
                 # executed only for lifted fields: the context forces `<x>.subfield is not None`
                 lifted = [a for a in cond.atoms_of(cx) if 'subfield' in a and 'None' in a]
                 if lifted and not cond.satisfiable(cond.conj([cx, cond.atom(lifted[0])])):
-                    reds.append(x)
+                    reds.append(at)
         if reds:
             rep.ok('G1', fn, reds[0], 'exponents from a lifted field are reduced modulo the characteristic')
         else:
